@@ -300,7 +300,111 @@ func c17Structured(o *common.Out, id, spec string) {
 	o.Count("structured-replies")
 }
 
+// c17Raw: the same with raw-bytes replies (serialization None, *[]byte): the bytes a call reported - the caller's reply,
+// the receipts - stay what they were when later answers arrive on the same connections.  spec = "raw <op1><op2>|<n>"
+func c17Raw(o *common.Out, id, spec string) {
+	o.Begin(id, spec)
+	p := strings.Split(strings.TrimPrefix(spec, "raw "), "|")
+	ops := p[0]
+	n, _ := strconv.Atoi(p[1])
+	uid := atomic.AddInt64(&c17seq, 1)
+	answer := func(round, i int) string { return fmt.Sprintf("answer-of-server-%d-to-call-%d-%s", i, round, strings.Repeat("x", 8)) }
+	var pairs []*client.KVPair
+	var addrs []string
+	for i := 0; i < n; i++ {
+		addr := fmt.Sprintf("c17b-%d-s%d", uid, i)
+		calls := map[string]string{}
+		for round := 1; round <= 3; round++ {
+			calls[strconv.Itoa(round)] = "js:" + answer(round, i)
+		}
+		registerFake(addr, &fakeServer{id: i, byArg: calls, delayMs: (i * 7) % 3 * 4})
+		addrs = append(addrs, addr)
+		pairs = append(pairs, &client.KVPair{Key: "vsrv@" + addr})
+	}
+	defer func() {
+		for _, a := range addrs {
+			unregisterFake(a)
+		}
+	}()
+	d, _ := client.NewMultipleServersDiscovery(pairs)
+	opt := client.DefaultOption
+	opt.SerializeType = protocol.SerializeNone
+	opt.Heartbeat = false
+	xc := client.NewXClient("Svc", client.Failfast, client.RandomSelect, d, opt)
+	defer xc.Close()
+	type kept struct {
+		what string
+		b    *[]byte
+		was  string
+	}
+	var keep []kept
+	valid := func(round int, s string) bool {
+		for i := 0; i < n; i++ {
+			if s == answer(round, i) {
+				return true
+			}
+		}
+		return false
+	}
+	for round := 1; round <= len(ops); round++ {
+		op := ops[round-1]
+		reply := new([]byte)
+		args := []byte(strconv.Itoa(round))
+		ctx, cancel := context.WithTimeout(context.Background(), 5*time.Second)
+		switch op {
+		case 'B', 'F':
+			var err error
+			if op == 'B' {
+				err = xc.Broadcast(ctx, "M", &args, reply)
+			} else {
+				err = xc.Fork(ctx, "M", &args, reply)
+			}
+			if err == nil && !valid(round, string(*reply)) {
+				o.Fail(id, "reply-not-from-a-success", fmt.Sprintf("call %d (%c) reported success, the caller's reply is %q, which no server sent for this call", round, op, *reply), spec)
+			}
+			if err == nil {
+				keep = append(keep, kept{fmt.Sprintf("the reply of call %d (%c)", round, op), reply, string(*reply)})
+			}
+		case 'I':
+			rs, _ := xc.Inform(ctx, "M", &args, reply)
+			for _, rc := range rs {
+				for k, a := range addrs {
+					if !strings.HasSuffix(rc.Address, a) {
+						continue
+					}
+					got, _ := rc.Reply.(*[]byte)
+					if rc.Error != nil || got == nil || string(*got) != answer(round, k) {
+						gs := "nil"
+						if got != nil {
+							gs = string(*got)
+						}
+						o.Fail(id, "inform-receipt", fmt.Sprintf("call %d: the receipt of server %d carries %q (error %v), that server answered %q", round, k, gs, rc.Error, answer(round, k)), spec)
+					} else {
+						keep = append(keep, kept{fmt.Sprintf("the receipt of server %d from call %d", k, round), got, string(*got)})
+					}
+				}
+			}
+		}
+		cancel()
+		// a Fork returns with the first success: let the other answers of this call arrive before the next call
+		time.Sleep(25 * time.Millisecond)
+		for _, kp := range keep {
+			if string(*kp.b) != kp.was {
+				o.Fail(id, "reported-bytes-changed", fmt.Sprintf("%s read %q when it was reported; after later answers arrived it reads %q", kp.what, kp.was, *kp.b), spec)
+				keep = nil
+				break
+			}
+		}
+	}
+	o.ImplOnly(id, spec, true)
+	o.Count("raw-replies")
+}
+
 func runC17(r *common.Rand, tier string, o *common.Out, replay string) {
+	if strings.HasPrefix(replay, "raw ") {
+		c17Raw(o, "replay", replay)
+		return
+	}
 	if strings.HasPrefix(replay, "rich ") {
 		c17Structured(o, "replay", replay)
 		return
@@ -378,6 +482,14 @@ func runC17(r *common.Rand, tier string, o *common.Out, replay string) {
 					}
 				}
 			}
+		}
+	}
+	// raw-bytes replies held by the caller across later calls (oracle only)
+	ri := 0
+	for _, ops := range []string{"III", "FIF", "BIB", "FFI", "IBF"} {
+		for n := 2; n <= 3; n++ {
+			ri++
+			c17Raw(o, fmt.Sprintf("b%d", ri), fmt.Sprintf("raw %s|%d", ops, n))
 		}
 	}
 	// consecutive calls that share one structured reply variable (oracle only)
